@@ -5,7 +5,8 @@
 //! case := op op …      I | E | L<ps> | J<f>:<ps> | X<f> | R<h>      <ps> := - | p,p,…
 //!         I = engine.insert, E = engine.insert_explicit, L = engine.insert_logical(premises),
 //!         J = tms_mut().add_logical_justification(f, premises), X = tms_mut().add_explicit_justification(f),
-//!         R = engine.retract(h).  Handles are the numbers working memory hands out (1, 2, …).
+//!         R = engine.retract(h).  Handles are the numbers working memory hands out (1, 2, …); they
+//!         are decimal numbers of any length and premise lists have any length (`L12,7,30,1,2,44,9,10`).
 //! obs  := step;step;…  step := res/present/logical/explicit/valid/stats
 //!         res = h<k> | u | ok:<cascade> | err ; the four sets are over the universe 1..=K
 //!         (K = max(#inserting ops + 1, largest handle mentioned)), sorted; stats = TmsStats fields.
@@ -284,32 +285,39 @@ fn random_history(rng: &mut Rng, maxops: usize, maxf: u64, wf: bool) -> Vec<Op> 
     ops
 }
 
-/// which handles are live after `ops` — a tiny independent simulation (fixpoint removal of
-/// unsupported facts), used only to steer the generator; the engine is never called from `gen`
-fn replay_live(ops: &[Op]) -> Vec<u64> {
-    let mut n = 0u64;
-    let mut live: Vec<u64> = Vec::new();
-    let mut justs: Vec<(u64, bool, Vec<u64>)> = Vec::new();
-    for op in ops {
+/// which handles are live after the operations applied so far — a tiny independent simulation
+/// (fixpoint removal of unsupported facts), used only to steer the generator; the engine is never
+/// called from `gen`
+struct Sim {
+    n: u64,
+    live: Vec<u64>,
+    justs: Vec<(u64, bool, Vec<u64>)>,
+}
+impl Sim {
+    fn new() -> Sim {
+        Sim { n: 0, live: Vec::new(), justs: Vec::new() }
+    }
+    fn apply(&mut self, op: &Op) {
         match op {
             Op::I | Op::E => {
-                n += 1;
-                live.push(n);
-                justs.push((n, true, vec![]));
+                self.n += 1;
+                self.live.push(self.n);
+                self.justs.push((self.n, true, vec![]));
             }
             Op::L(ps) => {
-                n += 1;
-                live.push(n);
-                justs.push((n, false, ps.clone()));
+                self.n += 1;
+                self.live.push(self.n);
+                self.justs.push((self.n, false, ps.clone()));
             }
-            Op::J(f, ps) => justs.push((*f, false, ps.clone())),
-            Op::X(f) => justs.push((*f, true, vec![])),
+            Op::J(f, ps) => self.justs.push((*f, false, ps.clone())),
+            Op::X(f) => self.justs.push((*f, true, vec![])),
             Op::R(h) => {
-                if !live.contains(h) {
-                    continue;
+                if !self.live.contains(h) {
+                    return;
                 }
-                live.retain(|x| x != h);
+                self.live.retain(|x| x != h);
                 loop {
+                    let (live, justs) = (&self.live, &self.justs);
                     let gone: Vec<u64> = live
                         .iter()
                         .copied()
@@ -321,12 +329,23 @@ fn replay_live(ops: &[Op]) -> Vec<u64> {
                     if gone.is_empty() {
                         break;
                     }
-                    live.retain(|x| !gone.contains(x));
+                    self.live.retain(|x| !gone.contains(x));
                 }
             }
         }
     }
-    live
+    /// handles created and gone again
+    fn retracted(&self) -> u64 {
+        self.n - self.live.len() as u64
+    }
+}
+
+fn replay_live(ops: &[Op]) -> Vec<u64> {
+    let mut s = Sim::new();
+    for op in ops {
+        s.apply(op);
+    }
+    s.live
 }
 
 /// a fixed support graph followed by every retraction order of a subset of its facts
@@ -360,6 +379,612 @@ fn shapes_all_orders(out: &mut Vec<String>) {
     }
 }
 
+// ------------------------------------------------- families beyond the small bound (sizes 30–300)
+//
+// The theorems are about histories and graphs of any size; the families below put the real code
+// into the regimes the exhaustive/short random part cannot reach: derivation chains deeper than
+// 32/64 levels, sessions with more than 64/128 retractions on one engine, justifications with
+// 5–16 premises listed in arbitrary handle order.  Every family is well-formed (inside the
+// property's domain) and sweeps the sizes across the usual thresholds.
+
+/// history builder that tracks the handles working memory will hand out and which are live
+struct B {
+    ops: Vec<Op>,
+    sim: Sim,
+}
+impl B {
+    fn new() -> B {
+        B { ops: Vec::new(), sim: Sim::new() }
+    }
+    fn push(&mut self, op: Op) -> u64 {
+        self.sim.apply(&op);
+        self.ops.push(op);
+        self.sim.n
+    }
+    fn i(&mut self) -> u64 {
+        self.push(Op::I)
+    }
+    fn e(&mut self) -> u64 {
+        self.push(Op::E)
+    }
+    fn l(&mut self, ps: Vec<u64>) -> u64 {
+        self.push(Op::L(ps))
+    }
+    fn j(&mut self, f: u64, ps: Vec<u64>) {
+        self.push(Op::J(f, ps));
+    }
+    fn r(&mut self, h: u64) {
+        self.push(Op::R(h));
+    }
+    /// `len` logical facts, each derived from the previous one, the first from `from`; -> the last
+    fn chain(&mut self, from: u64, len: usize) -> u64 {
+        let mut p = from;
+        for _ in 0..len {
+            p = self.l(vec![p]);
+        }
+        p
+    }
+    fn n(&self) -> u64 {
+        self.sim.n
+    }
+    fn retracted(&self) -> u64 {
+        self.sim.retracted()
+    }
+    fn case(&self) -> String {
+        show_case(&self.ops)
+    }
+    /// the history followed by the retractions `tail` (those whose handle is still live then)
+    fn with(&self, tail: &[u64]) -> String {
+        let mut b = B { ops: self.ops.clone(), sim: Sim { n: self.sim.n, live: self.sim.live.clone(), justs: self.sim.justs.clone() } };
+        for h in tail {
+            if b.sim.live.contains(h) {
+                b.r(*h);
+            }
+        }
+        b.case()
+    }
+}
+
+/// deep derivation graphs: the cascade of one `retract` is 30–200 (thorough: 500) levels deep
+fn deep_chains(rng: &mut Rng, tier: &str, out: &mut Vec<String>) {
+    let thorough = tier == "thorough";
+    // (a) plain chains of every length 30..=60 and a few longer ones, root retracted
+    let mut lens: Vec<usize> = (30..=60).collect();
+    lens.extend([63, 64, 65, 66, 80, 100, 128, 129, 130, 200]);
+    if thorough {
+        lens.extend([127, 150, 255, 256, 257, 300, 500]);
+    }
+    for d in &lens {
+        let mut b = B::new();
+        let root = b.i();
+        b.chain(root, *d);
+        out.push(b.with(&[root]));
+    }
+    // (b) a fact near the root retracted (alone; then the root; a leaf first); exactly 32/33/34 levels
+    for _ in 0..if thorough { 40 } else { 10 } {
+        let d = rng.range(33, 60) as usize;
+        let mut b = B::new();
+        let root = b.i();
+        let last = b.chain(root, d);
+        let near = rng.range(2, 5);
+        out.push(b.with(&[near]));
+        out.push(b.with(&[near, root]));
+        out.push(b.with(&[last, near + 1, root]));
+        let k = rng.range(32, 34);
+        if (d as u64) > k {
+            out.push(b.with(&[1 + d as u64 - k]));
+        }
+    }
+    // (c) a deep chain hanging off a diamond (join needing both sides / two justifications)
+    for _ in 0..if thorough { 24 } else { 6 } {
+        let d = rng.range(31, 60) as usize;
+        let mut b = B::new();
+        let a = b.i();
+        let l = b.l(vec![a]);
+        let r = b.l(vec![a]);
+        let m = b.l(vec![l, r]);
+        b.chain(m, d);
+        out.push(b.with(&[a]));
+        out.push(b.with(&[l]));
+        out.push(b.with(&[r, l]));
+        let mut b = B::new();
+        let a = b.i();
+        let l = b.l(vec![a]);
+        let r = b.l(vec![a]);
+        let m = b.l(vec![l]);
+        b.j(m, vec![r]);
+        b.chain(m, d);
+        out.push(b.with(&[a]));
+        out.push(b.with(&[l, r]));
+        out.push(b.with(&[r, l, a]));
+        out.push(b.with(&[m]));
+    }
+    // (d) every link also needs / is also supported by a second explicit fact
+    for _ in 0..if thorough { 20 } else { 5 } {
+        let d = rng.range(33, 60) as usize;
+        let mut b = B::new();
+        let a = b.i();
+        let s = b.e();
+        let mut p = a;
+        for _ in 0..d {
+            p = b.l(vec![p, s]);
+        }
+        out.push(b.with(&[a]));
+        out.push(b.with(&[s]));
+        out.push(b.with(&[3, s]));
+        let mut b = B::new();
+        let a = b.i();
+        let s = b.e();
+        let mut p = a;
+        for _ in 0..d {
+            p = b.l(vec![p]);
+            b.j(p, vec![s]);
+        }
+        out.push(b.with(&[a]));
+        out.push(b.with(&[s]));
+        out.push(b.with(&[a, s]));
+        out.push(b.with(&[s, a]));
+    }
+    // (e) comb: every spine fact also has a leaf; two chains joined at the bottom
+    for _ in 0..if thorough { 16 } else { 4 } {
+        let d = rng.range(33, 50) as usize;
+        let mut b = B::new();
+        let a = b.i();
+        let mut p = a;
+        for _ in 0..d {
+            p = b.l(vec![p]);
+            b.l(vec![p]);
+        }
+        out.push(b.with(&[a]));
+        out.push(b.with(&[rng.range(2, 6)]));
+        let mut b = B::new();
+        let a = b.i();
+        let c = b.i();
+        let x = b.chain(a, d);
+        let y = b.chain(c, d - 2);
+        let z = b.l(vec![x, y]);
+        b.chain(z, 3);
+        out.push(b.with(&[a]));
+        out.push(b.with(&[c, a]));
+    }
+    // (f) random deep graphs: mostly a chain, with extra premises and extra justifications
+    for _ in 0..if thorough { 200 } else { 40 } {
+        let n = rng.range(34, 70);
+        let mut b = B::new();
+        b.i();
+        if rng.chance(1, 3) {
+            b.e();
+        }
+        while b.n() < n {
+            let prev = b.n();
+            let mut ps = vec![if rng.chance(5, 6) { prev } else { rng.range(1, prev) }];
+            if rng.chance(1, 7) {
+                ps.push(rng.range(1, prev));
+            }
+            let f = b.l(ps);
+            if rng.chance(1, 10) {
+                b.j(f, vec![rng.range(1, prev)]);
+            }
+        }
+        let mut tail = vec![rng.range(1, 3)];
+        for _ in 0..rng.below(4) {
+            tail.push(rng.range(1, n));
+        }
+        out.push(b.with(&tail));
+    }
+}
+
+/// one block of unrelated traffic retracting at most `room` (>= 1) handles
+fn filler_block(rng: &mut Rng, b: &mut B, anchor: u64, room: u64) {
+    let kind = if room < 2 { rng.below(3) } else if room < 3 { rng.below(6) } else { rng.below(8) };
+    match kind {
+        0 => {
+            let h = b.i();
+            b.r(h);
+        }
+        1 => {
+            let h = b.e();
+            b.r(h);
+        }
+        2 => {
+            // an unrelated derived fact, retracted on request while its premise stays
+            let h = b.l(vec![anchor]);
+            b.r(h);
+        }
+        3 => {
+            let h = b.i();
+            b.l(vec![h]);
+            b.r(h);
+        }
+        4 => {
+            // fan: one premise, 1..3 dependents, all cascaded
+            let k = rng.range(1, 3).min(room - 1);
+            let h = b.i();
+            for _ in 0..k {
+                b.l(vec![h, anchor]);
+            }
+            b.r(h);
+        }
+        5 => {
+            // a batch retracted in shuffled order
+            let k = rng.range(2, 4).min(room);
+            let mut hs: Vec<u64> = (0..k).map(|_| b.i()).collect();
+            rng.shuffle(&mut hs);
+            for h in hs {
+                b.r(h);
+            }
+        }
+        6 => {
+            // short chain: middle retracted, retracted again (`err`), then the root
+            let h = b.i();
+            let m = b.l(vec![h]);
+            b.l(vec![m]);
+            b.r(m);
+            b.ops.push(Op::R(m));
+            b.r(h);
+        }
+        _ => {
+            // a fact with two justifications of its own inside the traffic
+            let p = b.i();
+            let q = b.i();
+            let d = b.l(vec![p]);
+            b.j(d, vec![q]);
+            b.r(p);
+            b.r(q);
+        }
+    }
+}
+
+/// the facts under observation in a long session; phase 0 = build + early loss of a premise,
+/// phase 1 = half-way through the traffic, phase 2 = at the end
+fn core_phase(core: u64, phase: u64, b: &mut B, st: &mut Vec<u64>, anchor: u64) {
+    match (core, phase) {
+        // D <- [A], D <- [C]; A early, C late
+        (0, 0) => {
+            let a = b.i();
+            let c = b.i();
+            let d = b.l(vec![a]);
+            b.j(d, vec![c]);
+            b.r(a);
+            st.push(c);
+        }
+        (0, 2) => b.r(st[0]),
+        // the same with dependents below D; C early, A late
+        (1, 0) => {
+            let a = b.i();
+            let c = b.i();
+            let d = b.l(vec![a]);
+            b.j(d, vec![c]);
+            let e = b.l(vec![d]);
+            b.l(vec![e, anchor]);
+            b.r(c);
+            st.push(a);
+        }
+        (1, 2) => b.r(st[0]),
+        // three justifications: one premise lost early, one half-way, one late
+        (2, 0) => {
+            let a = b.i();
+            let c = b.i();
+            let e = b.i();
+            let d = b.l(vec![a]);
+            b.j(d, vec![c]);
+            b.j(d, vec![e]);
+            b.l(vec![d]);
+            b.r(a);
+            st.extend([c, e]);
+        }
+        (2, 1) => b.r(st[0]),
+        (2, 2) => b.r(st[1]),
+        // the early premise is itself derived and goes by cascade
+        (3, 0) => {
+            let r = b.i();
+            let a = b.l(vec![r]);
+            let c = b.i();
+            let d = b.l(vec![a]);
+            b.j(d, vec![c]);
+            b.l(vec![d]);
+            b.r(r);
+            st.push(c);
+        }
+        (3, 2) => b.r(st[0]),
+        // a join justification and a single-premise one
+        (4, 0) => {
+            let a = b.i();
+            let a2 = b.i();
+            let c = b.i();
+            let d = b.l(vec![a, a2]);
+            b.j(d, vec![c]);
+            b.r(a2);
+            st.extend([c, a]);
+        }
+        (4, 2) => {
+            b.r(st[0]);
+            b.r(st[1]);
+        }
+        // one justification with two premises (D goes at once), re-derived half-way from the survivor
+        (5, 0) => {
+            let a = b.i();
+            let c = b.i();
+            let d = b.l(vec![a, c]);
+            b.l(vec![d]);
+            b.r(a);
+            st.push(c);
+        }
+        (5, 1) => {
+            let a2 = b.i();
+            let d2 = b.l(vec![a2]);
+            b.j(d2, vec![st[0]]);
+            b.l(vec![d2]);
+            b.r(st[0]);
+            st.push(a2);
+        }
+        (5, 2) => b.r(st[1]),
+        // two facts sharing the premises crosswise, a join and a chain below
+        (6, 0) => {
+            let a = b.i();
+            let c = b.i();
+            let d = b.l(vec![a]);
+            let e = b.l(vec![c]);
+            b.j(d, vec![c]);
+            b.j(e, vec![a]);
+            let f = b.l(vec![d, e]);
+            b.chain(f, 3);
+            b.r(c);
+            st.push(a);
+        }
+        (6, 2) => b.r(st[0]),
+        // the doubly justified fact is created half-way; its first premise goes at once, the second late
+        (7, 0) => {
+            let a = b.i();
+            st.push(a);
+        }
+        (7, 1) => {
+            let fresh = b.i();
+            let d = b.l(vec![st[0]]);
+            b.j(d, vec![fresh]);
+            b.l(vec![d]);
+            b.r(st[0]);
+            st.push(fresh);
+        }
+        (7, 2) => b.r(st[1]),
+        _ => {}
+    }
+}
+
+fn long_random(rng: &mut Rng, nops: usize) -> Vec<Op> {
+    let mut b = B::new();
+    while b.ops.len() < nops {
+        let nlive = b.sim.live.len();
+        let c = rng.below(100);
+        if nlive < 3 || c < 30 {
+            if rng.chance(1, 2) { b.i() } else { b.e() };
+        } else if c < 50 {
+            let k = rng.range(1, 3) as usize;
+            let ps = pick_live(rng, &b.sim.live, k);
+            b.l(ps);
+        } else if c < 58 {
+            let f = *rng.pick(&b.sim.live);
+            let k = rng.range(1, 2) as usize;
+            let ps = pick_live(rng, &b.sim.live, k);
+            b.j(f, ps);
+        } else if c < 60 {
+            let f = *rng.pick(&b.sim.live);
+            b.push(Op::X(f));
+        } else {
+            // older facts are retracted more often than fresh ones (premises go before conclusions)
+            let i = (rng.below(nlive as u64).min(rng.below(nlive as u64))) as usize;
+            let h = b.sim.live[i];
+            b.r(h);
+        }
+    }
+    b.ops
+}
+
+/// sessions with 48–130 (thorough: up to 260) retractions on one engine: a fact with several
+/// justifications loses one premise early and the other(s) only after a lot of unrelated traffic
+fn long_sessions(rng: &mut Rng, tier: &str, out: &mut Vec<String>) {
+    let thorough = tier == "thorough";
+    let mut targets: Vec<u64> = vec![48, 56, 60, 62, 63, 64, 65, 66, 67, 68, 70, 72, 80, 96, 110, 127, 128, 129, 130];
+    if thorough {
+        targets.extend([126, 160, 200, 255, 256, 257, 260]);
+    }
+    for core in 0..8u64 {
+        for &t in &targets {
+            // quick: around the thresholds every core, elsewhere every second target; thorough: all
+            if !thorough && !(62..=68).contains(&t) && (t / 2 + core) % 2 == 1 {
+                continue;
+            }
+            let mut b = B::new();
+            let anchor = b.e();
+            let mut st = Vec::new();
+            core_phase(core, 0, &mut b, &mut st, anchor);
+            let mut mid_done = false;
+            // unrelated traffic until `t` handles have been retracted in the session
+            while b.retracted() < t {
+                if !mid_done && b.retracted() * 2 >= t {
+                    core_phase(core, 1, &mut b, &mut st, anchor);
+                    mid_done = true;
+                    continue;
+                }
+                let room = t - b.retracted();
+                filler_block(rng, &mut b, anchor, room);
+            }
+            core_phase(core, 2, &mut b, &mut st, anchor);
+            // a little more traffic afterwards: the state must stay right
+            filler_block(rng, &mut b, anchor, 2);
+            out.push(b.case());
+        }
+    }
+    // random long sessions: 70–180 (thorough: up to 400) operations, about 40 % retractions
+    for _ in 0..if thorough { 300 } else { 40 } {
+        let nops = if thorough { rng.range(70, 400) } else { rng.range(70, 180) } as usize;
+        out.push(show_case(&long_random(rng, nops)));
+    }
+}
+
+/// premise orders of a `k`-premise justification over the handles `hs` (ascending)
+fn premise_orders(rng: &mut Rng, hs: &[u64], nshuffles: usize) -> Vec<Vec<u64>> {
+    let k = hs.len();
+    let mut out: Vec<Vec<u64>> = Vec::new();
+    out.push(hs.to_vec()); // ascending (the order all repository tests use)
+    out.push(hs.iter().rev().copied().collect()); // descending
+    for rot in [1, k / 2, k - 1] {
+        let mut v = hs.to_vec();
+        v.rotate_left(rot);
+        out.push(v);
+    }
+    let mut v = hs.to_vec();
+    v.swap(k - 1, k - 2);
+    out.push(v);
+    let mut v = hs.to_vec();
+    v.swap(0, 1);
+    out.push(v);
+    // odd positions then even positions
+    let mut v: Vec<u64> = hs.iter().copied().step_by(2).collect();
+    v.extend(hs.iter().copied().skip(1).step_by(2));
+    out.push(v.iter().rev().copied().collect());
+    out.push(v);
+    for _ in 0..nshuffles {
+        let mut v = hs.to_vec();
+        rng.shuffle(&mut v);
+        out.push(v);
+    }
+    out.dedup();
+    out
+}
+
+/// wide justifications: 5–8 (a few 12/16) premises in every kind of handle order; every single
+/// premise retracted in turn on a fresh engine
+fn wide_justifications(rng: &mut Rng, tier: &str, out: &mut Vec<String>) {
+    let thorough = tier == "thorough";
+    let widths: Vec<u64> = if thorough { (3..=16).collect() } else { vec![4, 5, 6, 7, 8, 12, 16] };
+    for &k in &widths {
+        let hs: Vec<u64> = (1..=k).collect();
+        let nsh = if thorough { 6 } else if k <= 8 { 2 } else { 1 };
+        for perm in premise_orders(rng, &hs, nsh) {
+            let mut b = B::new();
+            for _ in 0..k {
+                b.i();
+            }
+            let d = b.l(perm.clone());
+            for p in 1..=k {
+                if k > 8 && !thorough && !rng.chance(1, 3) {
+                    continue;
+                }
+                out.push(b.with(&[p]));
+            }
+            // with a dependent below, and a second retraction afterwards
+            let p = rng.range(1, k);
+            let q = rng.range(1, k);
+            let mut b2 = B::new();
+            for _ in 0..k {
+                b2.i();
+            }
+            let d2 = b2.l(perm.clone());
+            let e2 = b2.l(vec![d2]);
+            b2.l(vec![e2, 1 + p % k]);
+            out.push(b2.with(&[p, q]));
+            let _ = d;
+        }
+    }
+    // variations on the same class
+    for _ in 0..if thorough { 400 } else { 100 } {
+        let k = rng.range(5, 9);
+        let mut b = B::new();
+        match rng.below(6) {
+            0 => {
+                // r unrelated retractions first (r around k): early/late in the session
+                let r = rng.range(0, k + 2);
+                let extra: Vec<u64> = (0..r).map(|_| b.i()).collect();
+                let ps: Vec<u64> = (0..k).map(|_| if rng.chance(1, 2) { b.i() } else { b.e() }).collect();
+                let mut perm = ps.clone();
+                rng.shuffle(&mut perm);
+                let d = b.l(perm);
+                b.l(vec![d]);
+                for h in extra {
+                    b.r(h);
+                }
+                b.r(*rng.pick(&ps));
+            }
+            1 => {
+                // two wide justifications over overlapping premise sets
+                let ps: Vec<u64> = (0..k + 2).map(|_| b.i()).collect();
+                let mut p1 = ps[..k as usize].to_vec();
+                let mut p2 = ps[2..].to_vec();
+                rng.shuffle(&mut p1);
+                rng.shuffle(&mut p2);
+                let d = b.l(p1);
+                b.j(d, p2);
+                b.l(vec![d]);
+                let mut order = ps.clone();
+                rng.shuffle(&mut order);
+                for h in order.into_iter().take(rng.range(1, 3) as usize) {
+                    b.r(h);
+                }
+            }
+            2 => {
+                // a narrow and a wide justification: the narrow premise goes first
+                let a = b.i();
+                let ps: Vec<u64> = (0..k).map(|_| b.i()).collect();
+                let d = b.l(vec![a]);
+                let mut perm = ps.clone();
+                rng.shuffle(&mut perm);
+                b.j(d, perm);
+                b.l(vec![d]);
+                if rng.chance(1, 2) {
+                    b.r(a);
+                    b.r(*rng.pick(&ps));
+                } else {
+                    b.r(*rng.pick(&ps));
+                    b.r(a);
+                }
+            }
+            3 => {
+                // premises that are derived facts themselves; the root of some of them retracted
+                let root = b.i();
+                let other = b.i();
+                let ps: Vec<u64> = (0..k).map(|i| if i % 2 == 0 { b.l(vec![root]) } else { b.l(vec![other]) }).collect();
+                let mut perm = ps.clone();
+                rng.shuffle(&mut perm);
+                let d = b.l(perm);
+                b.chain(d, 2);
+                match rng.below(3) {
+                    0 => b.r(root),
+                    1 => b.r(other),
+                    _ => b.r(*rng.pick(&ps)),
+                }
+            }
+            4 => {
+                // duplicated premises inside a wide list
+                let ps: Vec<u64> = (0..k).map(|_| b.i()).collect();
+                let mut perm = ps.clone();
+                perm.push(*rng.pick(&ps));
+                perm.push(*rng.pick(&ps));
+                rng.shuffle(&mut perm);
+                b.l(perm);
+                b.r(*rng.pick(&ps));
+            }
+            _ => {
+                // several wide joins sharing premises, stacked
+                let ps: Vec<u64> = (0..k).map(|_| b.i()).collect();
+                let mut p1 = ps.clone();
+                rng.shuffle(&mut p1);
+                let d1 = b.l(p1);
+                let mut p2 = ps.clone();
+                p2.push(d1);
+                rng.shuffle(&mut p2);
+                let d2 = b.l(p2);
+                let mut p3 = ps[1..].to_vec();
+                p3.push(d2);
+                rng.shuffle(&mut p3);
+                b.l(p3);
+                b.r(*rng.pick(&ps));
+            }
+        }
+        out.push(b.case());
+    }
+}
+
 fn gen(rng: &mut Rng, n: usize, tier: &str) -> Vec<String> {
     let mut out = Vec::new();
     let (maxlen, maxf) = if tier == "thorough" { (6usize, 4u64) } else { (5usize, 4u64) };
@@ -370,12 +995,318 @@ fn gen(rng: &mut Rng, n: usize, tier: &str) -> Vec<String> {
         let ops = random_history(rng, 10, 7, wf);
         out.push(show_case(&ops));
     }
+    // beyond the small bound (after the random part, so the cases above do not depend on these)
+    deep_chains(rng, tier, &mut out);
+    long_sessions(rng, tier, &mut out);
+    wide_justifications(rng, tier, &mut out);
     out
+}
+
+/// the history without the facts in `gone` (handles, old numbering): their creating operations
+/// and every `R`/`X`/`J` about them disappear, they are dropped from premise lists (an operation
+/// whose non-empty premise list would become empty disappears with the fact it creates), and the
+/// remaining handles are renumbered the way working memory will number them
+fn remove_facts(ops: &[Op], gone: &[u64]) -> Vec<Op> {
+    // pass 1: which handles disappear (closure over "premise list became empty")
+    let mut gone: Vec<u64> = gone.to_vec();
+    loop {
+        let mut n = 0u64;
+        let mut more = Vec::new();
+        for o in ops {
+            match o {
+                Op::I | Op::E => n += 1,
+                Op::L(ps) => {
+                    n += 1;
+                    if !ps.is_empty() && ps.iter().all(|p| gone.contains(p)) && !gone.contains(&n) {
+                        more.push(n);
+                    }
+                }
+                _ => {}
+            }
+        }
+        if more.is_empty() {
+            break;
+        }
+        gone.extend(more);
+    }
+    let created = ops.iter().filter(|o| matches!(o, Op::I | Op::E | Op::L(_))).count() as u64;
+    let map = |h: u64| -> u64 {
+        if h == 0 { 0 } else { h - gone.iter().filter(|g| **g < h && **g <= created).count() as u64 }
+    };
+    let keep = |ps: &Vec<u64>| -> Vec<u64> { ps.iter().filter(|p| !gone.contains(p)).map(|p| map(*p)).collect() };
+    let mut out = Vec::new();
+    let mut n = 0u64;
+    for o in ops {
+        match o {
+            Op::I | Op::E => {
+                n += 1;
+                if !gone.contains(&n) {
+                    out.push(o.clone());
+                }
+            }
+            Op::L(ps) => {
+                n += 1;
+                if !gone.contains(&n) {
+                    out.push(Op::L(keep(ps)));
+                }
+            }
+            Op::J(f, ps) => {
+                let ps2 = keep(ps);
+                if !gone.contains(f) && (ps.is_empty() || !ps2.is_empty()) {
+                    out.push(Op::J(map(*f), ps2));
+                }
+            }
+            Op::X(f) => {
+                if !gone.contains(f) {
+                    out.push(Op::X(map(*f)));
+                }
+            }
+            Op::R(h) => {
+                if !gone.contains(h) {
+                    out.push(Op::R(map(*h)));
+                }
+            }
+        }
+    }
+    out
+}
+
+/// `f` spliced out of the support graph: whoever listed `f` as a premise lists the premises of
+/// `f`'s own first justification instead (shortens chains without cutting them)
+fn contract_fact(ops: &[Op], f: u64) -> Option<Vec<Op>> {
+    let mut n = 0u64;
+    let mut own: Option<Vec<u64>> = None;
+    for o in ops {
+        match o {
+            Op::I | Op::E => n += 1,
+            Op::L(ps) => {
+                n += 1;
+                if n == f {
+                    own = Some(ps.clone());
+                }
+            }
+            _ => {}
+        }
+    }
+    let own = own?;
+    if own.is_empty() || own.contains(&f) {
+        return None;
+    }
+    let subst = |ps: &Vec<u64>| -> Vec<u64> {
+        let mut v = Vec::new();
+        for p in ps {
+            if *p == f {
+                for q in &own {
+                    if !v.contains(q) {
+                        v.push(*q);
+                    }
+                }
+            } else {
+                v.push(*p);
+            }
+        }
+        v
+    };
+    let ops2: Vec<Op> = ops
+        .iter()
+        .map(|o| match o {
+            Op::L(ps) => Op::L(subst(ps)),
+            Op::J(g, ps) => Op::J(*g, subst(ps)),
+            o => o.clone(),
+        })
+        .collect();
+    Some(remove_facts(&ops2, &[f]))
+}
+
+// --------------------------------------------------------------------------- in-harness minimiser
+//
+// check.py tries at most 64 candidates per round and ~6 rounds; for histories of 100+ operations
+// that is not enough to get near a minimal witness.  `c08 minimise` (run by `shrink` as a child
+// process, so that a crash of the real code cannot take the candidate list with it) does the
+// delta debugging here, with a cheap stand-in for the oracle: the real code's observations are
+// compared with what the independent simulation `Sim` expects for a well-formed history.  Its
+// result is only a *candidate*: check.py accepts it only if the Lean oracle fails on it with the
+// same signature.
+
+/// first clause (in the oracle's order) on which the real code's observations differ from the
+/// expectation, for a well-formed history; `None` = nothing differs or the history is not well-formed
+fn verdict(ops: &[Op]) -> Option<&'static str> {
+    let obs = exec(&show_case(ops));
+    let steps: Vec<&str> = obs.split(';').collect();
+    if steps.len() != ops.len() {
+        return None;
+    }
+    let k = universe(ops);
+    let mut sim = Sim::new();
+    for (op, st) in ops.iter().zip(steps) {
+        let f: Vec<&str> = st.split('/').collect();
+        if f.len() != 6 {
+            return Some("shape");
+        }
+        let wf = match op {
+            Op::L(ps) => ps.iter().all(|p| sim.live.contains(p)),
+            Op::J(g, ps) => sim.live.contains(g) && ps.iter().all(|p| sim.live.contains(p)),
+            Op::X(g) => sim.live.contains(g),
+            _ => true,
+        };
+        if !wf {
+            return None;
+        }
+        let before = sim.live.clone();
+        sim.apply(op);
+        if let Op::R(h) = op {
+            if before.contains(h) {
+                // the oracle's cascade clause: what is listed was present, is listed once, had lost its
+                // support, and exactly `h` + the list left working memory (a fact that is *missing*
+                // from the list and still present is the support clause's business)
+                let want: Vec<u64> = before.iter().copied().filter(|x| x != h && !sim.live.contains(x)).collect();
+                let Some(got) = f[0].strip_prefix("ok:").and_then(parse_nums::<u64>) else { return Some("cascade") };
+                let mut uniq = got.clone();
+                uniq.sort();
+                uniq.dedup();
+                let mut left: Vec<u64> = before.iter().copied().filter(|x| x != h && !got.contains(x)).collect();
+                left.sort();
+                if uniq.len() != got.len() || got.iter().any(|x| !want.contains(x)) || parse_nums::<u64>(f[1]) != Some(left) {
+                    return Some("cascade");
+                }
+            }
+        }
+        let mut live = sim.live.clone();
+        live.sort();
+        if parse_nums::<u64>(f[1]) != Some(live.clone()) {
+            return Some("support");
+        }
+        let has = |g: u64, explicit: bool| sim.justs.iter().any(|j| j.0 == g && j.1 == explicit);
+        let logical: Vec<u64> = live.iter().copied().filter(|g| has(*g, false)).collect();
+        let explicit: Vec<u64> = live.iter().copied().filter(|g| has(*g, true)).collect();
+        let valid: Vec<u64> = (1..=k)
+            .filter(|g| sim.justs.iter().any(|j| j.0 == *g && (j.1 || j.2.iter().all(|p| live.contains(p)))))
+            .collect();
+        if parse_nums::<u64>(f[2]) != Some(logical) || parse_nums::<u64>(f[3]) != Some(explicit) || parse_nums::<u64>(f[4]) != Some(valid) {
+            return Some("query");
+        }
+    }
+    None
+}
+
+fn count_created(ops: &[Op]) -> u64 {
+    ops.iter().filter(|o| matches!(o, Op::I | Op::E | Op::L(_))).count() as u64
+}
+
+/// greedy passes (blocks of facts, single facts removed / spliced out, single non-creating
+/// operations, single premises) until nothing changes; every step keeps `verdict` the same
+fn minimise(ops: &[Op]) -> Vec<Op> {
+    let Some(target) = verdict(ops) else { return ops.to_vec() };
+    let mut cur = ops.to_vec();
+    let mut budget = 30_000usize;
+    let try_take = |cur: &mut Vec<Op>, cand: Vec<Op>, budget: &mut usize| -> bool {
+        if *budget == 0 || cand.is_empty() || show_case(&cand).len() >= show_case(cur).len() {
+            return false;
+        }
+        *budget -= 1;
+        if verdict(&cand) == Some(target) {
+            *cur = cand;
+            true
+        } else {
+            false
+        }
+    };
+    for _ in 0..6 {
+        let before = show_case(&cur);
+        // blocks of facts, halving sizes, from the end of the history backwards
+        let mut size = (count_created(&cur) / 2).max(1);
+        loop {
+            let mut hi = count_created(&cur);
+            while hi >= size && hi > 0 {
+                let block: Vec<u64> = (hi - size + 1..=hi).collect();
+                let cand = remove_facts(&cur, &block);
+                try_take(&mut cur, cand, &mut budget);
+                hi -= size;
+            }
+            if size == 1 {
+                break;
+            }
+            size /= 2;
+        }
+        // facts spliced out of the support graph
+        let mut f = count_created(&cur);
+        while f >= 1 {
+            if let Some(cand) = contract_fact(&cur, f) {
+                try_take(&mut cur, cand, &mut budget);
+            }
+            f -= 1;
+        }
+        // single non-creating operations, single premises
+        let mut i = cur.len();
+        while i > 0 {
+            i -= 1;
+            if i >= cur.len() {
+                continue;
+            }
+            match cur[i].clone() {
+                Op::J(..) | Op::X(_) | Op::R(_) => {
+                    let mut cand = cur.clone();
+                    cand.remove(i);
+                    if try_take(&mut cur, cand, &mut budget) {
+                        continue;
+                    }
+                }
+                _ => {}
+            }
+            let premises = match &cur[i] {
+                Op::L(ps) | Op::J(_, ps) if ps.len() > 1 => ps.len(),
+                _ => 0,
+            };
+            for q in (0..premises).rev() {
+                let mut cand = cur.clone();
+                match &mut cand[i] {
+                    Op::L(ps) | Op::J(_, ps) if ps.len() > 1 && q < ps.len() => {
+                        ps.remove(q);
+                    }
+                    _ => continue,
+                }
+                try_take(&mut cur, cand, &mut budget);
+            }
+        }
+        if show_case(&cur) == before {
+            break;
+        }
+    }
+    cur
+}
+
+/// `minimise` in a child process (a crash or a hang of the real code there costs only this candidate)
+fn minimise_in_child(case: &str) -> Option<String> {
+    use std::io::{Read, Write};
+    use std::process::{Command, Stdio};
+    let exe = std::env::current_exe().ok()?;
+    let mut child = Command::new(exe).arg("minimise").stdin(Stdio::piped()).stdout(Stdio::piped()).stderr(Stdio::null()).spawn().ok()?;
+    child.stdin.take()?.write_all(format!("{}\n", case).as_bytes()).ok()?;
+    let mut out = child.stdout.take()?;
+    let (tx, rx) = std::sync::mpsc::channel();
+    std::thread::spawn(move || {
+        let mut s = String::new();
+        let _ = out.read_to_string(&mut s);
+        let _ = tx.send(s);
+    });
+    match rx.recv_timeout(std::time::Duration::from_secs(60)) {
+        Ok(s) => {
+            let ok = child.wait().map(|st| st.success()).unwrap_or(false);
+            let s = s.trim().to_string();
+            if ok && !s.is_empty() && s != case { Some(s) } else { None }
+        }
+        Err(_) => {
+            let _ = child.kill();
+            let _ = child.wait();
+            None
+        }
+    }
 }
 
 fn shrink(case: &str) -> Vec<String> {
     let Some(ops) = parse_case(case) else { return vec![] };
-    let mut out: Vec<String> = shrink_list(&ops).into_iter().filter(|v| !v.is_empty()).map(|v| show_case(&v)).collect();
+    let created = ops.iter().filter(|o| matches!(o, Op::I | Op::E | Op::L(_))).count() as u64;
+    let mut generic: Vec<String> = shrink_list(&ops).into_iter().filter(|v| !v.is_empty()).map(|v| show_case(&v)).collect();
     // drop one premise somewhere
     for i in 0..ops.len() {
         let variants: Vec<Op> = match &ops[i] {
@@ -386,9 +1317,67 @@ fn shrink(case: &str) -> Vec<String> {
         for v in variants {
             let mut o2 = ops.clone();
             o2[i] = v;
-            out.push(show_case(&o2));
+            generic.push(show_case(&o2));
         }
     }
+    // whole facts removed with renumbering: blocks of created/2, /4, … handles (from the end of the
+    // history backwards), then single facts removed or spliced out, then single non-creating operations
+    let mut facts: Vec<String> = Vec::new();
+    let mut size = created / 2;
+    while size >= 2 {
+        let mut hi = created;
+        while hi >= size {
+            let block: Vec<u64> = (hi - size + 1..=hi).collect();
+            facts.push(show_case(&remove_facts(&ops, &block)));
+            hi -= size;
+        }
+        size /= 2;
+    }
+    let mut singles: Vec<String> = Vec::new();
+    for f in (1..=created).rev() {
+        singles.push(show_case(&remove_facts(&ops, &[f])));
+        if let Some(v) = contract_fact(&ops, f) {
+            singles.push(show_case(&v));
+        }
+    }
+    let mut noncreating: Vec<String> = Vec::new();
+    for i in (0..ops.len()).rev() {
+        if matches!(ops[i], Op::J(..) | Op::X(_) | Op::R(_)) {
+            let mut v = ops.clone();
+            v.remove(i);
+            noncreating.push(show_case(&v));
+        }
+    }
+    // check.py tries the first 64 candidates of a round: short histories keep the generic order
+    // first; long ones start with the renumbering candidates, interleaving the three kinds
+    let mut out: Vec<String> = Vec::new();
+    if ops.len() <= 12 {
+        out.extend(generic);
+        out.extend(facts);
+        out.extend(singles);
+    } else {
+        out.extend(facts.iter().take(30).cloned());
+        let (mut a, mut b) = (singles.into_iter(), noncreating.into_iter());
+        loop {
+            let (x, y, z) = (a.next(), a.next(), b.next());
+            if x.is_none() && z.is_none() {
+                break;
+            }
+            out.extend(x);
+            out.extend(y);
+            out.extend(z);
+        }
+        out.extend(facts.into_iter().skip(30));
+        out.extend(generic);
+    }
+    // long histories: the in-harness minimiser's result goes first
+    if ops.len() > 12 {
+        if let Some(m) = minimise_in_child(case) {
+            out.insert(0, m);
+        }
+    }
+    let mut seen = std::collections::HashSet::new();
+    out.retain(|c| !c.is_empty() && c != case && seen.insert(c.clone()));
     out
 }
 
@@ -401,6 +1390,29 @@ fn main() {
         let mut v = Vec::new();
         exhaustive(l, f, &mut v);
         println!("{}", v.len());
+        return;
+    }
+    if args.get(1).map(|s| s.as_str()) == Some("verdict") {
+        // diagnosis: the stand-in verdict for each case line on stdin
+        let mut line = String::new();
+        while std::io::stdin().read_line(&mut line).unwrap_or(0) > 0 {
+            if let Some(ops) = parse_case(line.trim_end()) {
+                println!("{}", verdict(&ops).unwrap_or("none"));
+            }
+            line.clear();
+        }
+        return;
+    }
+    if args.get(1).map(|s| s.as_str()) == Some("minimise") {
+        // one case line on stdin -> a smaller history with the same `verdict` (see `minimise`)
+        std::panic::set_hook(Box::new(|_| {}));
+        let mut line = String::new();
+        std::io::stdin().read_line(&mut line).unwrap();
+        let out = match parse_case(line.trim_end()) {
+            Some(ops) => std::panic::catch_unwind(|| show_case(&minimise(&ops))).unwrap_or_default(),
+            None => String::new(),
+        };
+        println!("{}", out);
         return;
     }
     main_with(Prop { gen, exec, shrink });
